@@ -79,11 +79,16 @@ CLAIMED.update({
              'code and values, the values reading back with the strict decoders as the canonical value of the attribute '
              'state (numbers exact, text exact, DTIME = UTC fields + rounded ms, references = identity). Tie: tapped '
              'EFLR bodies vs setBody(description of the live objects) + whole-file oracle comparing the Lean reader\'s '
-             'dump with an expectation computed from the API arguments and the pinned schema (attrs_eq, enums_eq).',
-        note='PARTIAL: the converters (user input -> attribute state: numeric/date parsing, enum members, list wrapping) '
-             'and write-time defaults are Python dynamic-typing logic outside the Lean model; they are covered by the '
-             'whole-file oracle only. strptime/astimezone are trusted (TZ=UTC in the harness).',
-        technique='Lean 4 proof (parser round-trip + typed value decoding) + differential correspondence + spec oracle',
+             'dump with an expectation computed from the API arguments and the pinned schema (attrs_eq, enums_eq). '
+             'User input -> attribute state is the converter model (Model/Convert.lean: value/units setters, every '
+             'converter, inferred representation code, count): assigned_held_exactly, assigned_held_leafwise, '
+             'numeric_value_kept, int_as_double_exact, status_value_kept, dtime_value_kept, writer_gets_held_values; '
+             'instantiated from the pinned converter table (convs_eq) and compared with the real set_attributes on '
+             'every attribute of every object type (convert stream, with a strict-reader oracle on the component).',
+        note='PARTIAL: write-time defaults are oracle-only; int(str)/float(str)/strptime are parameters of the converter '
+             'model (trusted builtins; TZ=UTC in the harness); three single-class converters and numpy scalars as '
+             'attribute values are outside it.',
+        technique='Lean 4 proof (converter model + parser round-trip + typed value decoding) + differential correspondence + spec oracle',
         design='§5 C05'),
     'C08': dict(
         text='Theorems descriptor_layout (code of the (cast) dtype, DIMENSION = per-row shape, ELEMENT-LIMIT bounds it), '
@@ -140,11 +145,14 @@ CLAIMED.update({
              'add_* call (before or after registration) changes no object, origin, copy number or header origin, and '
              'the records written afterwards are unchanged. Tie: history correspondence with rejected calls of both '
              'kinds; oracle: the file of a history equals (content-wise) the file of the same history without the '
-             'rejected calls, and writability is the same.',
-        note='PARTIAL: multi-step simulation (effect of the leftover empty set on later set order / defaults) and the '
-             'failed-write half (values derived at write time persist: known D6 family) are oracle-only. KNOWN FINDING: '
-             'rejected call naming another logical file\'s set.',
-        technique='Lean 4 proof (rejected step is a no-op on observable state) + history correspondence + differential oracle',
+             'rejected calls, and writability is the same. history_without_rejected_calls: for every history the objects '
+             '(origins, copy numbers), header origins and set records equal those of the history without its rejected '
+             'calls, provided no add_origin is rejected and logical files name different sets; two witness theorems show '
+             'neither proviso can be dropped (they are the two known findings). Streams: rejected calls carrying data, '
+             'failed writes followed by a correct one.',
+        note='PARTIAL: the order of set records and the failed-write half are oracle-only. KNOWN FINDINGS: rejected call '
+             'naming another logical file\'s set; rejected add_origin that created its set first.',
+        technique='Lean 4 proof (simulation invariant over whole histories) + history correspondence + differential oracle',
         design='§5 C20'),
 })
 
@@ -202,7 +210,9 @@ CLAIMED.update({
              'exception, decorator - around arbitrary possibly-failing calls the flag and stack are as before), '
              'hc_on_inside, names_restricted + hcChar_class, enum_restricted, breach_raises_iff, file_set_numbers, '
              'pattern_pinned / enums_eq (generated tables). Tie: flag traces of random context shapes vs the model; '
-             'validate_string vs the class for every code point < 256; 11 aspects x met/breached x inside/outside.',
+             'validate_string vs the class for every code point < 256; 11 aspects x met/breached x inside/outside; '
+             'setter_names_restricted / setter_enums_restricted / units_restricted (converter model) with the setters '
+             'stream over every name-like, enumerated and units-carrying attribute of every object type.',
         note='PARTIAL: the regex engine is trusted; completeness of the checks on the path to a successful write is tied '
              'by the aspect matrix, not by a pipeline theorem.',
         technique='Lean 4 proof (stack discipline by induction on bracketing + decision logic) + correspondence',
@@ -215,7 +225,10 @@ CLAIMED.update({
              'strict physical reader as exactly the specification\'s records), set_record_decodes / '
              'noformat_record_decodes / C03 (each body decodes to what it was built from), and the rejects_* theorems '
              '(over-long or non-ASCII IDENT/ASCII, integers outside a code\'s range, missing dataset, unequal row '
-             'counts are errors), empty_list_faithful. Tie: the malformed stream - valid specifications with one '
+             'counts are errors), empty_list_faithful, and the setter rejections of the converter model (text_rejects_non_str, '
+             'numeric_rejects_non_number, numeric_int_rejects_fraction, status_rejects_other_numbers, '
+             'reference_rejects_other_type, rejected_assignment_keeps_state). Tie: the setters stream (every attribute x '
+             'every Python value kind, strict-reader oracle on what was accepted) and the malformed stream - valid specifications with one '
              'injected defect from a catalogue of ~30, or a degenerate value - must raise or decode to the expectation.',
         note='PARTIAL: which Python inputs are refused before the model applies (type checks, dtype validation, '
              'completeness) is tied by the malformed stream only.',
